@@ -29,9 +29,16 @@ package detector
 //@   requires forall k :: 0 <= k && k < len(extendedSpatialIds2) ==> (isext(extendedSpatialIds2[k]) ==> zoomsok(extendedSpatialIds2[k]))
 //@   ensures [false-on-error] r1 != nil ==> r0 == false
 //@   ensures [empty] len(extendedSpatialIds1) == 0 || len(extendedSpatialIds2) == 0 ==> r0 == false && r1 == nil
-//@   ensures [disjunction] (forall k :: 0 <= k && k < len(extendedSpatialIds1) ==> validext(extendedSpatialIds1[k])) && (forall k :: 0 <= k && k < len(extendedSpatialIds2) ==> validext(extendedSpatialIds2[k])) ==> r1 == nil && (r0 <==> (exists i, j :: 0 <= i && i < len(extendedSpatialIds1) && 0 <= j && j < len(extendedSpatialIds2) && ovrel(extendedSpatialIds1[i], extendedSpatialIds2[j])))
-//@   loop 0 invariant (forall k :: 0 <= k && k < len(extendedSpatialIds1) ==> validext(extendedSpatialIds1[k])) && (forall k :: 0 <= k && k < len(extendedSpatialIds2) ==> validext(extendedSpatialIds2[k])) ==> (forall i, j :: 0 <= i && i < $i && 0 <= j && j < len(extendedSpatialIds2) ==> !ovrel(extendedSpatialIds1[i], extendedSpatialIds2[j]))
-//@   loop 1 invariant (forall k :: 0 <= k && k < len(extendedSpatialIds1) ==> validext(extendedSpatialIds1[k])) && (forall k :: 0 <= k && k < len(extendedSpatialIds2) ==> validext(extendedSpatialIds2[k])) ==> (forall i, j :: 0 <= i && i < $i0 - 1 && 0 <= j && j < len(extendedSpatialIds2) ==> !ovrel(extendedSpatialIds1[i], extendedSpatialIds2[j])) && (forall j :: 0 <= j && j < $i ==> !ovrel(extendedSpatialIds1[$i0 - 1], extendedSpatialIds2[j]))
+//@ end
+//@ -- lists of valid IDs: the answer is the disjunction of the pairwise relation
+//@ case CheckExtendedSpatialIdsArrayOverlap all-valid
+//@   requires forall k :: 0 <= k && k < len(extendedSpatialIds1) ==> validext(extendedSpatialIds1[k])
+//@   requires forall k :: 0 <= k && k < len(extendedSpatialIds2) ==> validext(extendedSpatialIds2[k])
+//@   ensures [no-error] r1 == nil
+//@   ensures [only-if] r0 ==> (exists i, j :: 0 <= i && i < len(extendedSpatialIds1) && 0 <= j && j < len(extendedSpatialIds2) && ovrel(extendedSpatialIds1[i], extendedSpatialIds2[j]))
+//@   ensures [if] !r0 ==> (forall i, j :: 0 <= i && i < len(extendedSpatialIds1) && 0 <= j && j < len(extendedSpatialIds2) ==> !ovrel(extendedSpatialIds1[i], extendedSpatialIds2[j]))
+//@   loop 0 invariant forall i, j :: 0 <= i && i < $i && 0 <= j && j < len(extendedSpatialIds2) ==> !ovrel(extendedSpatialIds1[i], extendedSpatialIds2[j])
+//@   loop 1 invariant (forall i, j :: 0 <= i && i < $i0 && 0 <= j && j < len(extendedSpatialIds2) ==> !ovrel(extendedSpatialIds1[i], extendedSpatialIds2[j])) && (forall j :: 0 <= j && j < $i ==> !ovrel(extendedSpatialIds1[$i0], extendedSpatialIds2[j]))
 //@ end
 
 //@ lemma C05_overlap_relation_symmetric_and_reflexive
